@@ -651,6 +651,115 @@ def r10_str_writes_what_val_reads(ctx, rule="C17.R10"):
     ctx.require(rule, 1)
 
 
+def _is_max_len(o):
+    o = mir.strip_all(o)
+    return o[0] == "const" and ("MAX_STRING_LENGTH" in str(o[1]) or str(o[1]).startswith("32767"))
+
+
+def _range_of(f, body, o):
+    """(low, high, inclusive) origins of a range value (a literal range, also when promoted to a constant)"""
+    o = mir.strip_all(o)
+    if o[0] == "promoted" and isinstance(o[1], int) and o[1] < len(f.promoted):
+        pb = f.promoted[o[1]]
+        o = mir.strip_all(mir.Prov(pb).of_local(0))
+    if o[0] == "agg" and o[1] == "adt" and o[2].startswith(("Range::", "RangeTo::")):
+        ops = o[3]
+        return (ops[0] if len(ops) == 2 else None, ops[-1], False)
+    if o[0] == "agg" and o[1] == "adt" and o[2].startswith("RangeToInclusive::"):
+        return (None, o[3][-1], True)
+    if o[0] == "call" and o[1].endswith("RangeInclusive::<Idx>::new") and len(o[2]) == 2:
+        return (o[2][0], o[2][1], True)
+    return None
+
+
+def _limit_truth(f, body, o, ordering):
+    """truth of a guard when the length stands in `ordering` (Less / Equal / Greater) to MAX_STRING_LENGTH"""
+    o = mir.strip_all(o)
+    if o[0] == "un" and o[1] == "Not":
+        t = _limit_truth(f, body, o[2], ordering)
+        return None if t is None else not t
+    if o[0] == "bin" and o[1] in ("Gt", "Ge", "Lt", "Le", "Eq", "Ne"):
+        a_max, b_max = _is_max_len(o[2]), _is_max_len(o[3])
+        if a_max == b_max:
+            return None
+        c = {"Less": -1, "Equal": 0, "Greater": 1}[ordering]
+        if a_max:
+            c = -c          # MAX op len
+        return {"Gt": c > 0, "Ge": c >= 0, "Lt": c < 0, "Le": c <= 0, "Eq": c == 0, "Ne": c != 0}[o[1]]
+    if o[0] == "call" and o[1].split("::")[-1].startswith("contains") and len(o[2]) == 2:
+        rg = _range_of(f, body, o[2][0])
+        if rg is None or not _is_max_len(rg[1]):
+            return None
+        lo = rg[0]
+        if lo is not None and not (mir.strip_all(lo)[0] == "const" and str(mir.strip_all(lo)[1]).startswith("0")):
+            return None
+        return ordering == "Less" or (ordering == "Equal" and rg[2])
+    return None
+
+
+def r11_length_limit_is_inclusive(ctx, rule="C17.R11"):
+    """`LEN(a$ + b$) = LEN(a$) + LEN(b$)` / `LEFT$(s$, n) + MID$(s$, n + 1) = s$`: for every string the language can
+    hold - up to and including MAX_STRING_LENGTH characters.  Wherever a result is refused with Out of string space,
+    the guard in front of it is evaluated on the three ways the length can stand to the limit: below and at the
+    limit the string is made, only above it the error is raised (a guard written `<`, `>=` or as a half-open range
+    refuses the longest string)."""
+    prog = ctx.prog
+    n = 0
+    for f in sorted(prog.fns.values(), key=lambda f: f.id):
+        if f.crate not in ("rusty_variant", "rusty_basic") or f.body is None or "::tests" in f.id:
+            continue
+        body = f.body
+        errs = set()
+        for b, blk in enumerate(body.blocks):
+            if body.is_cleanup(b):
+                continue
+            for st in blk["s"]:
+                r = st.get("r", {})
+                if st["k"] == "assign" and r.get("k") == "agg" and r.get("variant") == "OutOfStringSpace" \
+                        and (r.get("adt") or "").endswith(("VariantError", "RuntimeError")):
+                    errs.add(b)
+        if not errs:
+            continue
+        # translations of one error type into another (From, Clone) copy the variant, they do not raise it
+        if any("OutOfStringSpace" in sw.arms for sw in mir.enum_switches(prog, body)):
+            continue
+        pv = mir.Prov(body)
+        for eb in sorted(errs):
+            guards = []
+            for b, blk in enumerate(body.blocks):
+                t = blk["t"]
+                if t["k"] != "switch" or t.get("ty") != "bool" or body.is_cleanup(b):
+                    continue
+                tf_, tt_ = t["ts"][0][1], t["else"]
+                rf, rt = body.reachable(tf_), body.reachable(tt_)
+                if (eb in rf) != (eb in rt):
+                    guards.append((b, t, eb in rt))
+            n += 1
+            key = "%s:%s" % (rule, f.name)
+            if not guards:
+                ctx.violation(rule, key, f.loc, "%s raises Out of string space with no test in front of it" % f.name, {})
+                continue
+            # the innermost guard that mentions the limit
+            res = None
+            for b, t, on_true in guards:
+                o = pv.of_operand(t["o"])
+                tr = {k: _limit_truth(f, body, o, k) for k in ("Less", "Equal", "Greater")}
+                if None in tr.values():
+                    continue
+                res = {k: (v if on_true else not v) for k, v in tr.items()}
+            if res is None:
+                ctx.unknown(rule, key, f.loc, "the guard of Out of string space in %s was not read (%s)"
+                            % (f.name, [mir.short_origin(pv.of_operand(t["o"]))[:80] for b, t, _x in guards]))
+                continue
+            ctx.decide(res == {"Less": False, "Equal": False, "Greater": True}, rule, key, f.loc,
+                       "Out of string space is raised exactly when the length is above MAX_STRING_LENGTH",
+                       "%s raises Out of string space when the length of the result is %s MAX_STRING_LENGTH: a string of "
+                       "exactly 32767 characters, which the language can hold, cannot be made by concatenation "
+                       "(LEN(a$ + b$) = LEN(a$) + LEN(b$) fails at that length)"
+                       % (f.name, " / ".join({"Less": "below", "Equal": "equal to", "Greater": "above"}[k] for k in ("Less", "Equal", "Greater") if res[k])))
+    ctx.require(rule, 1)
+
+
 def run(ctx):
     common.install(ctx)
     r1_accessors(ctx)
@@ -665,3 +774,4 @@ def run(ctx):
     r8_trims_remove_blanks_only(ctx)
     r9_chr_code_is_a_byte(ctx)
     r10_str_writes_what_val_reads(ctx)
+    r11_length_limit_is_inclusive(ctx)
